@@ -18,7 +18,7 @@ func init() {
 	register(&Check{
 		ID: "C12", Level: "exploration", Primary: "orders", EvalCount: "fences_checked", RaceIsViolation: true,
 		Rule: "one evaluation = a fresh server, a PRNG-chosen order of Stop relative to Run (Stop before Run; Stop 0-300us after Run was started; Stop after Ready) and, when serving, a PRNG-chosen connection state " +
-			"(connect storm with accepts in flight, handlers parked and released by a timer only after Stop was called - 5..45ms later, now and then 1.2..2.6s later -, ldaps sessions ended with close_notify / bare FIN / reset just before Stop, slow OnClose callback held 20-120ms (every tenth time 3.3-4.8s) by the harness, clients tearing down, idle connections, handlers whose client hung up, handlers whose session ended with an Unbind, a held unbind-route handler, ldaps handlers parked, an OnClose callback still running while no connection is open any more), " +
+			"(connect storm with accepts in flight, handlers parked and released by a timer only after Stop was called - 5..45ms later, now and then 1.2..2.6s later -, ldaps sessions ended with close_notify / bare FIN / reset just before Stop next to plaintext peers the listener refused during the handshake (accepted connections all the same: OnClose is owed for them), slow OnClose callback held 20-120ms (every tenth time 3.3-4.8s) by the harness, clients tearing down, idle connections, handlers whose client hung up, handlers whose session ended with an Unbind, a held unbind-route handler, ldaps handlers parked, an OnClose callback still running while no connection is open any more), " +
 			"optionally a concurrent or later second Stop. At the fence (the instant both Stop and Run have returned) the monitor requires: no handler in flight, no OnClose in progress, one completed OnClose for every " +
 			"connection ID a handler ever saw, every served client connection closed, dial refused, the address bindable again; and over a 300ms tail no event stamped after the fence. Runs under the race detector. " +
 			"distinct_nontrivial = distinct (order, state, second-Stop, observed Ready-at-Stop) combinations",
@@ -26,7 +26,7 @@ func init() {
 		Phases: func(tier string, seed int64) []Phase {
 			return []Phase{{Name: "fences", Race: true, Run: c12Run}}
 		},
-		MinObserved: []string{"fences_checked", "order/stop-before-run", "order/race-startup", "order/after-ready", "runs_with_handlers_parked_at_stop", "runs_with_onclose_slow", "runs_with_connect_storm", "runs_with_tls_sessions_torn_down", "tls_sessions_served_before_stop", "runs_with_parked_handlers_whose_client_hung_up", "runs_with_an_unbind_handler_held_at_stop", "runs_with_tls_handlers_parked_at_stop", "runs_with_onclose_held_for_seconds", "runs_with_an_onclose_callback_running_and_no_connection_open_at_stop", "runs_with_handlers_held_more_than_a_second_after_stop", "runs_with_parked_handlers_whose_session_ended_with_an_unbind"},
+		MinObserved: []string{"fences_checked", "order/stop-before-run", "order/race-startup", "order/after-ready", "runs_with_handlers_parked_at_stop", "runs_with_onclose_slow", "runs_with_connect_storm", "runs_with_tls_sessions_torn_down", "tls_sessions_served_before_stop", "runs_with_parked_handlers_whose_client_hung_up", "runs_with_an_unbind_handler_held_at_stop", "runs_with_tls_handlers_parked_at_stop", "runs_with_onclose_held_for_seconds", "runs_with_an_onclose_callback_running_and_no_connection_open_at_stop", "runs_with_handlers_held_more_than_a_second_after_stop", "runs_with_parked_handlers_whose_session_ended_with_an_unbind", "tls_listener_connections_refused_during_the_handshake", "runs_on_a_server_without_panic_recovery_with_handlers_parked_at_stop"},
 	})
 }
 
@@ -94,6 +94,9 @@ func c12One(c *Ctx, r *Rand, idx int) {
 		lastEvent.Store(nextSeq())
 		onclosing.Add(-1)
 	}}
+	if idx%4 == 2 {
+		cfg.DisableRecover = true // no handler of this workload panics
+	}
 	if state == "tls-teardown" || state == "tls-parked" {
 		c12PKIOnce.Do(func() { c12PKI = newPKI() })
 		cfg.TLS = c12PKI.ServerOnly
@@ -103,7 +106,7 @@ func c12One(c *Ctx, r *Rand, idx int) {
 		c.Inconclusive(err.Error())
 		return
 	}
-	var parkedNow atomic.Int64
+	var parkedNow, acceptedUnserved atomic.Int64
 	srv.Mux.Search(func(w *gldap.ResponseWriter, req *gldap.Request) {
 		inflight.Add(1)
 		seenMu.Lock()
@@ -338,6 +341,27 @@ func c12One(c *Ctx, r *Rand, idx int) {
 			for _, f := range ends {
 				f()
 			}
+			// peers that never get through the handshake: plaintext LDAP on the ldaps port. Once such a client has seen
+			// the server's reaction (an alert, the close) its connection was accepted - and an accepted connection is
+			// closed and reported through OnClose like any other
+			for i := 0; i < 1+r.Intn(3); i++ {
+				cn := dial()
+				if cn == nil {
+					continue
+				}
+				cn.Write(search(1, "x"))
+				cn.SetReadDeadline(time.Now().Add(3 * time.Second))
+				buf := make([]byte, 512)
+				for {
+					if _, err := cn.Read(buf); err != nil {
+						if !isTimeout(err) {
+							acceptedUnserved.Add(1)
+							c.Count("tls_listener_connections_refused_during_the_handshake", 1)
+						}
+						break
+					}
+				}
+			}
 			if r.Bool() {
 				time.Sleep(time.Duration(r.Intn(3000)) * time.Microsecond)
 			}
@@ -382,6 +406,9 @@ func c12One(c *Ctx, r *Rand, idx int) {
 		}
 		if parked && parkedNow.Load() > 0 {
 			c.Count("runs_with_handlers_parked_at_stop", 1)
+			if cfg.DisableRecover {
+				c.Count("runs_on_a_server_without_panic_recovery_with_handlers_parked_at_stop", 1)
+			}
 		}
 		if slowClose {
 			c.Count("runs_with_onclose_slow", 1)
@@ -450,6 +477,11 @@ func c12One(c *Ctx, r *Rand, idx int) {
 			notClosed = append(notClosed, id)
 		}
 	}
+	onCloseTotal := 0
+	for _, n := range closedConn {
+		onCloseTotal += n
+	}
+	knownAccepted := len(seenConn) + int(acceptedUnserved.Load())
 	seenMu.Unlock()
 	for i := 1; i < stops; i++ {
 		select {
@@ -474,6 +506,9 @@ func c12One(c *Ctx, r *Rand, idx int) {
 	}
 	if oncl != 0 {
 		c.Violate("an OnClose callback is still in progress when Stop and Run have returned", fmt.Sprintf("%d callbacks in progress at the fence (order %s, state %s)", oncl, order, state), det)
+	}
+	if onCloseTotal < knownAccepted {
+		c.Violate("OnClose has not completed for every accepted connection when Stop and Run have returned", fmt.Sprintf("%d connections are known to have been accepted (%d served, %d refused during the TLS handshake - their clients saw the server's reaction), %d OnClose callbacks completed (order %s, state %s)", knownAccepted, len(seenConn), acceptedUnserved.Load(), onCloseTotal, order, state), det)
 	}
 	if len(notClosed) > 0 {
 		c.Violate("OnClose has not completed exactly once for a served connection when Stop and Run have returned", fmt.Sprintf("connections %v had no (or more than one) completed OnClose callback at the fence (order %s, state %s, second stop %s)", notClosed, order, state, second), det)
